@@ -1,0 +1,16 @@
+//go:build verif
+
+package conditional
+
+// Contracts checked by /verif/gocv (comment-only file; see /verif/DESIGN.md §3).
+
+//@ func (*conditionalStorageMiddleware).lookupStorage
+//@ pure
+
+// Isolation: whatever method of storage.Storage is called on the routing middleware, every call it makes on any
+// storage with a bucket as first argument goes to the storage configured for that very bucket (or the default).
+// Instantiated for the whole method set, inherited methods included.
+//@ methods csm *conditionalStorageMiddleware of storage.Storage except Start Stop ListBuckets
+//@ mode effects
+//@ effect[C24:routed-to-the-buckets-storage] every storage.Storage($s).$M(_, storage.BucketName($b), __)
+//@     where $s == csm.lookupStorage($b)
